@@ -1,5 +1,5 @@
 """C17 - pre_randomize / post_randomize run once each, before and after the solve."""
-from .. import engine, fam_tree
+from .. import engine, fam_tree, fam_list
 
 LEVEL = "model_checking"
 
@@ -7,6 +7,9 @@ LEVEL = "model_checking"
 def run(tier, seed, limit=0):
     chk = engine.Check("C17", tier, seed)
     scs = fam_tree.family_T(tier, seed, tag="T17") + fam_tree.family_cb_special(tier, seed)
+    # random-size lists of objects with hooks: every exposed element is called once, before and after the solve, also when the
+    # solved size shrinks and grows again; an element's pre_randomize assigns a field its own block reads
+    scs += fam_list.family_objlist_randsz(tier, seed, n=6 if tier == "quick" else 60, cb_all=True, tag="T17/objrs")
     if limit:
         scs = scs[:limit]
     chk.run_scenarios(scs, "Trace_VscRand", nontrivial=lambda r: any(e.get("cbs") for e in r["events"]))
